@@ -63,3 +63,17 @@ func TestWtCorpus(t *testing.T) {
 	}
 	fmt.Printf("go-accepted: wt accepts %d (stage-1 fragment: %d), wt rejects %d\n", acc, s1, rej)
 }
+
+// TestC02Export prints the exported tree of the program in $DBG_SRC.
+func TestC02Export(t *testing.T) {
+	if os.Getenv("DBG_SRC") == "" {
+		t.Skip("DBG_SRC not set")
+	}
+	src, _ := os.ReadFile(os.Getenv("DBG_SRC"))
+	prog, err := safeParse(string(src))
+	if err != nil {
+		t.Fatal(err)
+	}
+	sx, err := ExportProgram(prog)
+	fmt.Println(sx.String(), err)
+}
